@@ -2,6 +2,9 @@ import Ptn.C09.Model
 import Ptn.C09.EnvProps
 import Ptn.C09.GaugeLemmas
 import Ptn.C03.Tree
+import Ptn.C09.Structure
+import Ptn.C10.Props
+import Ptn.C10.Tree
 import Ptn.Common.AnalysisLocal
 import Ptn.Common.AnalysisProj
 /-! Property theorems for C09 (BUG): recursion order — children before parents, every node once,
@@ -201,6 +204,127 @@ theorem rank_adaptive_truncation_keeps_canonical (t : RTree) (hwf : t.WF) :
   subst hv
   exact hdv
 
+/-! ### Completion, structure and shapes
+
+The structural statements are about the C02 model of `TreeTensorNetwork` (`Ptn/C09/Structure.lean`): the edits
+`root_update` / `update_node` apply to `new_state`. -/
+
+open Ptn.C17 Ptn.C17.RTree in
+/-- **A step completes on every tree** (one node included), both variants, as far as the cache machine and the
+    gauge machine can tell: no cache lookup fails (every read returns a block of the generation the scheme asks
+    for), no assertion about the orthogonality centre fails, `contract_all_children` only ever meets
+    basis-change nodes, and at the end no basis-change node and no working copy is left.
+    Missing (hence `_partial`): that the edits of the C02 structural model (`splitNodes`, `contractNodes`,
+    `replaceTensorPermuted`) return a network for every well-formed labelled input - `bug_step_structure_partial`
+    takes the success of the run as a hypothesis; completion of the real code is decided per input by the harness. -/
+theorem bug_step_completes_partial (fixed : Bool) (t : RTree) (hwf : t.WF) :
+    (∀ e ∈ Env.bugRun t, Env.GoodEv e) ∧
+    (∀ dir0, ∃ s, Gauge.run (Gauge.start dir0 t) (Gauge.bugEvents fixed t) = some s ∧
+      s.pend = [] ∧ s.frames = [t.rid]) := by
+  refine ⟨Env.bug_env_sources t hwf, fun dir0 => ?_⟩
+  obtain ⟨s, h1, _, _, h4, h5, _⟩ := Gauge.root_runs fixed t hwf dir0
+  exact ⟨s, h1, h4, h5⟩
+
+open Ptn.C02 in
+/-- **`split_node_replace` of a BUG step** (`c` any non-root node, `b` its unused basis-change identifier, any
+    new rank `bd`): the result is well-formed and label-consistent with the same root; the basis-change node `b`
+    takes the place of `c` below the parent `p` and has `c` as its only child, `c` keeps its children list; every
+    node keeps exactly its open axes; `b` has exactly two legs - the old parent leg of `c` (same label and
+    dimension) and the new bond of dimension `bd` - and `c` has the new bond and, toward its children, exactly the
+    legs it had. -/
+theorem bug_split_structure {t t1 : TTN} {c b : Id} {bd : Nat} (h : t.WF) (hl : t.LWF)
+    (hfresh : t.N b = none) (hs : bugSplit t c b bd = some t1) :
+    t1.WF ∧ t1.LWF ∧ t1.root = t.root ∧ (∀ k, t1.openAxes k = t.openAxes k) ∧
+    ∃ C p, t.N c = some C ∧ C.parent = some p ∧ t1.S = splitS t.S c b c (some p) [] C.children ∧
+      (∀ x ax, t1.Leg b x ax ↔ ((x = c ∧ ax = ⟨t.nextLabel, bd⟩) ∨ (x = p ∧ t.Leg c x ax))) ∧
+      (∀ x ax, t1.Leg c x ax ↔ ((x = b ∧ ax = ⟨t.nextLabel, bd⟩) ∨ (x ∈ C.children ∧ t.Leg c x ax))) := by
+  obtain ⟨C, p, hC, hp, hsp⟩ := bugSplit_eq hs
+  obtain ⟨w, S1, R1⟩ := bug_split_full (TTN.WFX.ofLWF h hl) hC hp hfresh hsp
+  obtain ⟨l1, l2⟩ := bug_split_legs h hC hp hfresh hsp
+  exact ⟨w.wf, w.lwf trivial, R1, w.op trivial, C, p, hC, hp, S1, l1, l2⟩
+
+open Ptn.C02 in
+/-- **Fixed-rank BUG keeps the shape of the tensor it replaces** - for the replacement itself.  The hypothesis is
+    what the code enforces of the QR in `KEEP` mode (`assert new_basis_tensor.shape == updated_tensor.shape`;
+    `tensor_qr_decomposition(…, mode=SplitMode.KEEP)` for a leaf): the new rank `bd` is the dimension of the old
+    parent leg of `c`.  Then the new basis tensor at `c` has, leg by leg, the dimensions of the old tensor (parent
+    side `bd`, children legs and open axes identical) and the basis-change tensor is `bd × bd`.
+    Missing (hence `_partial`): the same statement after the absorption of the basis-change tensor into the
+    parent and for the whole step (the structural theorems below do not track bond dimensions; the harness
+    compares all shapes after every fixed-rank step). -/
+theorem fixed_bug_keeps_shapes_partial {t t1 : TTN} {c b p : Id} {C : NodeS} {bd : Nat} {lab : Label}
+    (h : t.WF) (hl : t.LWF) (hfresh : t.N b = none) (hC : t.N c = some C) (hp : C.parent = some p)
+    (hqr : t.Leg c p ⟨lab, bd⟩) (hs : bugSplit t c b bd = some t1) :
+    t1.Leg c b ⟨t.nextLabel, bd⟩ ∧ t1.Leg b c ⟨t.nextLabel, bd⟩ ∧ t1.Leg b p ⟨lab, bd⟩ ∧
+    (∀ x ∈ C.children, ∀ ax, t1.Leg c x ax ↔ t.Leg c x ax) ∧ (∀ k, t1.openAxes k = t.openAxes k) := by
+  obtain ⟨_, _, _, ho, C', p', hC', hp', _, l1, l2⟩ := bug_split_structure h hl hfresh hs
+  rw [hC] at hC'; simp at hC'; subst hC'
+  rw [hp] at hp'; simp at hp'; subst hp'
+  refine ⟨(l2 b _).mpr (Or.inl ⟨rfl, rfl⟩), (l1 c _).mpr (Or.inl ⟨rfl, rfl⟩),
+    (l1 p _).mpr (Or.inr ⟨rfl, hqr⟩), ?_, ho⟩
+  intro x hx ax
+  rw [l2 x ax]
+  constructor
+  · rintro (⟨e, _⟩ | ⟨_, h2⟩)
+    · exfalso
+      subst e
+      obtain ⟨cch, hcc⟩ := h.str.down c _ _ x (TTN.S_eq hC) hx
+      rw [TTN.S, hfresh] at hcc; simp at hcc
+    · exact h2
+  · exact fun h2 => Or.inr ⟨hx, h2⟩
+
+open Ptn.C02 in
+/-- **Basis update of a node and absorption of its basis-change tensor into the parent** (`split_node_replace`,
+    then the `contract_nodes(parent, c_basis_change_tensor, new_identifier=parent)` of
+    `contract_all_children(parent)`): well-formed, label-consistent result, same root; `c` has become the LAST
+    child of its parent and nothing else has changed in the structure; every node keeps exactly its open axes. -/
+theorem bug_basis_up_structure {t t' : TTN} {c b : Id} {bd : Nat} (h : t.WF) (hl : t.LWF)
+    (hfresh : t.N b = none) (hs : bugBasisUp t c b bd = some t') :
+    t'.WF ∧ t'.LWF ∧ t'.root = t.root ∧ (∀ k, t'.openAxes k = t.openAxes k) ∧
+    ∃ C P p, t.N c = some C ∧ C.parent = some p ∧ t.N p = some P ∧ c ∈ P.children ∧
+      (∀ k, k ≠ p → t'.S k = t.S k) ∧ t'.S p = some (P.parent, P.children.erase c ++ [c]) := by
+  obtain ⟨w, R, C, p, hC, hp, S'⟩ := bug_basis_up_full (TTN.WFX.ofLWF h hl) hfresh hs
+  obtain ⟨P, hP, hm⟩ := parent_node h hC hp
+  exact ⟨w.wf, w.lwf trivial, R, w.op trivial, C, P, p, hC, hp, hP, hm, demote_explicit hP S'⟩
+
+open Ptn.C02 in
+/-- **Structure of a BUG step** for any sequence of the edits of `root_update` in which every basis-change tensor
+    is absorbed into the parent right after the split that creates it (pulls, tensor reads, basis updates, the
+    final `replace_tensor` of the root; any new ranks): the state stays well-formed and label-consistent; same
+    root, same identifiers, same parent of every node, same children up to order; **every node keeps exactly its
+    open axes (labels, order, dimensions) - only bond dimensions change**.
+    Missing (hence `_partial`): the code absorbs the basis-change tensors of all children of a node together
+    (`contract_all_children`, after the last child's update) - the literal interleaving, in which basis-change
+    nodes of finished siblings are pending while a later sibling's subtree is edited, is covered event by event
+    (`bug_split_structure`, `Ptn.C02.trunc_step2` for the absorption) and by the gauge machine
+    (`bug_step_canonical_at_root`: none is left at the end) but not by one run-level theorem. -/
+theorem bug_step_structure_partial {t t' : TTN} {es : List BugEvent} (h : t.WF) (hl : t.LWF)
+    (hr : BugRun t es t') :
+    t'.WF ∧ t'.LWF ∧ t'.root = t.root ∧
+    (∀ k, t'.N k = none ↔ t.N k = none) ∧
+    (∀ k n, t.N k = some n →
+      ∃ n', t'.N k = some n' ∧ n'.parent = n.parent ∧ n'.children.Perm n.children) ∧
+    (∀ k, t'.openAxes k = t.openAxes k) := by
+  obtain ⟨w, R, E⟩ := bug_run_wfx (TTN.WFX.ofLWF h hl) hr
+  exact ⟨w.wf, w.lwf trivial, R, (treeEq_explicit E).1, (treeEq_explicit E).2, w.op trivial⟩
+
+/-- **No bond above the configured maximum after the truncation pass** - for the selection rule.  Every
+    truncation of `recursive_truncation` keeps, of a non-empty descending non-negative spectrum, a prefix of
+    length between 1 and `max_bond_dim` (`Ptn.C10.trunc_is_prefix`); that length is the dimension of the bond
+    after `truncate_node`.
+    Missing (hence `_partial`): that the bond dimensions of the returned state ARE these lengths (the C02 model
+    of `recursive_truncation`, `Ptn.C10.recursive_truncation_structure`, takes the kept dimensions as parameters
+    and proves structure and open axes, not bond dimensions; the final `canonical_form` uses reduced QRs, which
+    never enlarge a bond); decided per input by the harness. -/
+theorem rank_adaptive_bonds_le_partial (s : List Rat) (p : Ptn.C10.Params) (D : Nat) (hs : s ≠ [])
+    (hnn : Ptn.C10.NonNeg s) (hd : Ptn.C10.Desc s) (hp : p.Valid) (hD : p.maxBond = some D) :
+    ∃ kept disc, Ptn.C10.truncate s p = some (kept, disc) ∧ 1 ≤ kept.length ∧ kept.length ≤ D := by
+  obtain ⟨k, h1, h2, h3, hcase⟩ := Ptn.C10.trunc_is_prefix s p hs hnn hd hp
+  have hk : k ≤ D := h3 D hD
+  rcases hcase with ⟨_, ht⟩ | ⟨_, _, ht⟩
+  · exact ⟨_, _, ht, by simp; omega, by simp; omega⟩
+  · exact ⟨_, _, ht, by simp; omega, by simp; omega⟩
+
 /-! ### Non-vacuity: root 0 with children 1 (leaf) and 2 (with child 3) -/
 
 def exTree : Tree :=
@@ -224,5 +348,45 @@ example : (Gauge.bugEvents true exR).filterMap Gauge.qrOf = [(1, 0, false), (3, 
     never absorbed and a stale frame: the machine is stuck - `bug_step_canonical_at_root` is not vacuous -/
 example : Gauge.run (Gauge.start (fun _ => none) exR)
     [.down 0 2 false, .evolve 2, .basis 2 0 true, .down 2 3 false] = none := by decide
+
+/-! #### the structural theorems: root `1` (one open leg) with the leaves `2` (bond 3) and `3` (bond 2) -/
+
+open Ptn.C02 in
+def netOps : List TOp :=
+  [.root 1 [⟨0, 2⟩, ⟨100, 3⟩, ⟨101, 2⟩],
+   .child 2 [⟨100, 3⟩, ⟨1, 2⟩] 0 1 1,
+   .child 3 [⟨2, 2⟩, ⟨101, 2⟩] 1 1 2]
+
+open Ptn.C02 in
+/-- the network is well-formed and label-consistent, `50` is unused, the leaf `2` has the parent leg
+    `⟨100, 3⟩`, and `split_node_replace` with the old rank 3 succeeds: hypotheses of `bug_split_structure` and
+    `fixed_bug_keeps_shapes_partial`; the basis-change node `50` then sits between `1` and `2` -/
+example : ∃ t t1, TRunL TTN.empty netOps t ∧ t.WF ∧ t.LWF ∧ t.N 50 = none ∧ t.Leg 2 1 ⟨100, 3⟩ ∧
+    bugSplit t 2 50 3 = some t1 ∧ t1.S 50 = some (some 1, [2]) ∧ t1.S 2 = some (some 50, []) ∧
+    t1.S 1 = some (none, [50, 3]) ∧ t1.openAxes 2 = [⟨1, 2⟩] :=
+  ⟨_, _, .cons ⟨rfl, rfl⟩ trivial rfl (.cons trivial ⟨_, rfl, rfl⟩ rfl (.cons trivial ⟨_, rfl, rfl⟩ rfl (.nil _))),
+    (builtL_labels (show TRunL TTN.empty netOps _ from
+      .cons ⟨rfl, rfl⟩ trivial rfl (.cons trivial ⟨_, rfl, rfl⟩ rfl (.cons trivial ⟨_, rfl, rfl⟩ rfl (.nil _))))).1,
+    (builtL_labels (show TRunL TTN.empty netOps _ from
+      .cons ⟨rfl, rfl⟩ trivial rfl (.cons trivial ⟨_, rfl, rfl⟩ rfl (.cons trivial ⟨_, rfl, rfl⟩ rfl (.nil _))))).2,
+    rfl, by unfold TTN.Leg; decide, rfl, rfl, rfl, rfl, rfl⟩
+
+open Ptn.C02 in
+/-- a whole step on it: basis updates of `2` (rank 3 -> 2) and `3` (rank 2 -> 4), pull, read and store at the
+    root; `2` and `3` are children of `1` again (each moved to the end when it was absorbed) -/
+example : ∃ t t', TRun TTN.empty netOps t ∧
+    BugRun t [.basisUp 2 50 2, .basisUp 3 51 4, .pull 1 (some [0, 2, 1]), .access 1, .store 1] t' ∧
+    t'.S 1 = some (none, [2, 3]) ∧ t'.S 2 = some (some 1, []) ∧ t'.N 50 = none ∧ t'.N 51 = none :=
+  ⟨_, _, .cons ⟨rfl, rfl⟩ rfl (.cons trivial rfl (.cons trivial rfl (.nil _))),
+    .cons rfl rfl (.cons rfl rfl (.cons (by intro l hl; cases hl; decide) rfl (.cons trivial rfl
+      (.cons trivial rfl (.nil _))))),
+    rfl, rfl, rfl, rfl⟩
+
+/-- hypotheses of `rank_adaptive_bonds_le_partial`: a valid parameter object with `max_bond_dim = 2` on the
+    spectrum `[4, 2, 1]` keeps two values -/
+example : Ptn.C10.Desc [4, 2, 1] ∧ Ptn.C10.NonNeg [4, 2, 1] ∧
+    (Ptn.C10.exP (some 2) (.fin 0) (.fin 0) false false true).Valid ∧
+    (Ptn.C10.truncate [4, 2, 1] (Ptn.C10.exP (some 2) (.fin 0) (.fin 0) false false true)).map
+      (fun r => r.1.length) = some 2 := by decide +kernel
 
 end Ptn.C09
